@@ -1143,3 +1143,8 @@ package core
 //@   ensures[C08.ix_rem_search_count_monotone] depSearches >= old(depSearches)
 //@ func (*LinearState).rem
 //@   ensures[C08.lin_rem_search_count_monotone] depSearches >= old(depSearches)
+
+// C13: values are sorted by the trie only within one of four comparable kinds; a value is given a kind's code only if it IS
+// of that kind (the comparator asserts the kind without checking: a nil or a map classified as a string would panic there)
+//@ func typeCode
+//@   ensures[C13.typecode_classifies_exactly] (result == 1) == is(x, string) && (result == 2) == is(x, float64) && (result == 3) == is(x, int) && (result == 4) == is(x, bool)
